@@ -44,9 +44,15 @@ def apalache_inductive(res):
         if "The outcome is: Error" in out:
             return "refuted"
         raise Inconclusive("apalache-mc gave no verdict on Rpc.tla: " + out[-800:])
-    base = run("ConstInit", "Init", 0)
-    step = run("ConstInit", "IndInit", 1)
-    neg = run("ConstInitNeg", "IndInit", 1)
+    import glob
+    before = set(glob.glob("/tmp/SANY*"))   # (the parser of the tool leaves small temporary directories there)
+    try:
+        base = run("ConstInit", "Init", 0)
+        step = run("ConstInit", "IndInit", 1)
+        neg = run("ConstInitNeg", "IndInit", 1)
+    finally:
+        for d in set(glob.glob("/tmp/SANY*")) - before:
+            shutil.rmtree(d, ignore_errors=True)
     if base != "ok" or step != "ok":
         raise Inconclusive(f"Rpc.tla: IndInv is not inductive (base {base}, step {step}): the design argument does not stand")
     if neg != "refuted":
